@@ -48,6 +48,7 @@ def pdisc : List Step → Bool
     (match st with
      | .write2 f => if f.op = 8 then closeWin r else true
      | .brIfClosing _ => !closeWin r
+     | .brIfErr _ => !closeWin r
      | .ldClosing => false          -- the pinned `_check_writable` tests `is_closed`, then `is_closing`
      | .chkBoth => false
      | _ => true)
@@ -70,7 +71,7 @@ theorem compile_pdisc (v : Variant) (cfg : Cfg) (call : Call) (hva : v.closeAtom
     (repeat' split) <;> simp_all [pdisc, closeWin]
 
 theorem alt_pdisc (v : Variant) (a : Alt) : pdisc (altSteps v a) = true := by
-  cases a; simp only [altSteps, closeSocketProg]; split <;> simp [pdisc, closeWin]
+  cases a <;> simp only [altSteps, closeSocketProg] <;> (try split) <;> simp [pdisc, closeWin]
 
 theorem compile_closeWin (v : Variant) (cfg : Cfg) (call : Call) : closeWin (compile v cfg call) = false := by
   cases call <;>
@@ -177,10 +178,10 @@ theorem inB_step {v : Variant} {st : Step} {r r' : List Step} (m : Moves v st r 
       simp only [disc, Bool.and_eq_true] at d
       have := d.1.2
       rcases hs with hs | hs | hs | hs <;> subst hs <;> simp [outOnly, inOnly, hnw] at this
-    · subst hs
-      simp only [pdisc, Bool.and_eq_true] at pd
-      have := pd.2
-      simp [hwr] at this
+    · rcases hs with hs | hs <;> subst hs <;>
+      · simp only [pdisc, Bool.and_eq_true] at pd
+        have := pd.2
+        simp [hwr] at this
 
 structure PInv (v : Variant) (cfg : Cfg) (s : State) : Prop where
   pd : ∀ t, pdisc (view v cfg (s.th t)) = true
